@@ -8,6 +8,26 @@ HERE = os.path.dirname(os.path.dirname(os.path.abspath(__file__)))
 
 # pid -> (category, technique, level text, level note, design ref)
 CHECKS = {
+    "C13": (
+        "exploration",
+        "Hypothesis: layout-preserving edits of every shipped .co file and of generated v1/v2 programs (metamorphic parse equality); character mutations, truncations and token soups loaded through RailsConfig.from_path (exception-type oracle + hang watchdog), bucketed by root cause",
+        "Layout leg: blank lines, trailing spaces/tabs, (2.x) end-of-line comments, uniform indentation scaling and final-newline changes are applied to all shipped "
+        "files and generated programs; the parse result must be identical modulo source positions. Error leg: mutated/truncated/token-soup texts are written to a "
+        "temp config and loaded through RailsConfig.from_path; the outcome must be success or ColangParsingError naming the file; any other exception type, bucketed "
+        "by innermost nemoguardrails frame, or a confirmed hang is a violation. Truncation at every byte of two small programs is enumerated.",
+        "Comments are only appended to lines that already hold code (comment-only lines are statements in 2.x); v1 comments are semantic and never inserted; texts with import/include tokens are excluded and counted.",
+        "DESIGN.md 4/C13",
+    ),
+    "C14": (
+        "exploration",
+        "Hypothesis: generated structured Colang 1.0 programs (vf/co1.py) x co-simulated follow/leave histories; independent reference interpreter over the source AST; purity re-evaluation on a used instance",
+        "Generated flows/subflows (user/bot steps, set, if/else, while, do, execute) are compiled by the real parser; after every event of a co-simulated history "
+        "(follow the flow, leave it for another flow, unknown intent) compute_next_steps - and in most cases RuntimeV1_0.generate_events - must decide exactly the step "
+        "a 60-line reference interpreter of the source AST expects (bot intent, action start with parameters, context updates); every recorded prefix is re-evaluated "
+        "after other histories ran on the same flow configs/runtime and must give identical steps.",
+        "Competing intents, when-branches, extension flows and parallel-active flows are outside the stated subset; histories stop where two top-level flows would be active side by side.",
+        "DESIGN.md 4/C14",
+    ),
     "C06": (
         "exploration",
         "Hypothesis: grammar-based Colang 2 program generator (flow/action hierarchies, activation, when, groups) x event histories with late/early/missing action Finished events x tie-breaks; history invariants over Start/Stop events and flow statuses",
